@@ -76,6 +76,17 @@ pub open spec fn sum_spec(s: Seq<Rcvar>, n: nat) -> f64
 pub uninterp spec fn str_contains(hay: Seq<char>, needle: Seq<char>) -> bool;
 pub uninterp spec fn str_starts_with(s: Seq<char>, p: Seq<char>) -> bool;
 pub uninterp spec fn str_ends_with(s: Seq<char>, p: Seq<char>) -> bool;
+// `.len()` of the three containers `length` looks at: elements, members, and - for a String - BYTES (uninterpreted:
+// a body that measures a string with `len()` where the specification counts code points cannot be proved)
+pub uninterp spec fn str_byte_len(s: Seq<char>) -> usize;
+pub trait LenOf { spec fn len_spec(&self) -> usize; fn idiom_len(&self) -> (r: usize) ensures r == self.len_spec(); }
+impl LenOf for Vec<Rcvar> { open spec fn len_spec(&self) -> usize { self@.len() as usize }
+    #[verifier::external_body] fn idiom_len(&self) -> (r: usize) { self.len() } }
+impl LenOf for BTreeMap<String, Rcvar> { open spec fn len_spec(&self) -> usize { obj_view(*self).dom().len() as usize }
+    #[verifier::external_body] fn idiom_len(&self) -> (r: usize) { self.len() } }
+impl LenOf for String { open spec fn len_spec(&self) -> usize { str_byte_len(self@) }
+    #[verifier::external_body] fn idiom_len(&self) -> (r: usize) { self.len() } }
+pub fn idiom_len_of<T: LenOf>(x: &T) -> (r: usize) ensures r == x.len_spec() { x.idiom_len() }
 #[verifier::external_body]
 pub fn idiom_str_contains(subj: &String, s: &String) -> (r: bool) ensures r == str_contains(subj@, s@) { subj.contains(s) }
 #[verifier::external_body]
